@@ -164,6 +164,17 @@ Proof.
   destruct (escape_path rt (fi_dir f)); simpl; [apply H | reflexivity].
 Qed.
 
+(* the sub-group table consulted by an entry: the segment's one, except for a group (empty) *)
+Lemma subgroups_for_sub seg f k others :
+  lookup k (subgroups_for seg f) = Some others -> lookup k (sections_subgroups seg) = Some others.
+Proof. unfold subgroups_for. destruct (fi_kind f); try (intro H; exact H); discriminate. Qed.
+
+Lemma subgroups_for_leaf seg f : fi_kind f <> KGroup -> subgroups_for seg f = sections_subgroups seg.
+Proof. unfold subgroups_for. destruct (fi_kind f); try reflexivity. intro H. elim H. reflexivity. Qed.
+
+Lemma subgroups_for_group seg f : fi_kind f = KGroup -> subgroups_for seg f = [].
+Proof. unfold subgroups_for. intros ->. reflexivity. Qed.
+
 (* one step of the chain of sub-group expansions *)
 Definition chain_step (ef : string -> string -> wstate -> res out)
            (rec : string -> string -> wstate -> res out)
@@ -172,7 +183,7 @@ Definition chain_step (ef : string -> string -> wstate -> res out)
   fold_out (fun k ws =>
       do o1 <- ef k base ws;
       do o2 <- (if reference_partial cfg then Ok ([], snd o1) else
-                match lookup k (sections_subgroups seg) with
+                match lookup k (subgroups_for seg f) with
                 | Some others => fold_out (fun other ws => rec other base ws) others (snd o1)
                 | None => Ok ([], snd o1)
                 end);
@@ -306,7 +317,7 @@ Proof.
     eapply em_ext; [|apply em_seq with
         (g1 := emit_file_of rt sty cfg seg sections f k0 base)
         (g2 := fun ws => if reference_partial cfg then Ok ([], ws) else
-                 match lookup k0 (sections_subgroups seg) with
+                 match lookup k0 (subgroups_for seg f) with
                  | Some others =>
                      fold_out (fun other ws => emit_sff rt sty cfg seg sections f n (section :: stack) other base ws)
                               others ws
@@ -315,7 +326,7 @@ Proof.
     + reflexivity.
     + apply emit_file_of_emitter. exact IHfiles.
     + destruct (reference_partial cfg); [apply em_nil|].
-      destruct (lookup k0 (sections_subgroups seg)) as [others|]; [|apply em_nil].
+      destruct (lookup k0 (subgroups_for seg f)) as [others|]; [|apply em_nil].
       apply (fold_out_emitter sty (wildcard_sections seg) (offs_of rt f)
                (fun other ws => emit_sff rt sty cfg seg sections f n (section :: stack) other base ws)).
       apply Forall_forall. intros other _. apply (IHn (section :: stack) other base).
